@@ -361,6 +361,76 @@ Section Facts.
     rewrite IH by (apply insert_sorted; exact S). cbn [fst snd]. rewrite lookup_insert by exact S. reflexivity.
   Qed.
 
+  Lemma assoc_last_app : forall k l1 l2 d, assoc_last k (l1 ++ l2) d = assoc_last k l2 (assoc_last k l1 d).
+  Proof. intros k l1. induction l1 as [|[k' v] l1 IH]; intros l2 d; [reflexivity|]. cbn [app assoc_last]. apply IH. Qed.
+  Lemma assoc_last_default : forall k l d,
+    assoc_last k l d = match assoc_last k l None with Some x => Some x | None => d end.
+  Proof.
+    intros k l. induction l as [|[k' v] l IH]; intro d; [reflexivity|]. cbn [assoc_last].
+    destruct (keqb k k').
+    - rewrite (IH (Some v)). destruct (assoc_last k l None); reflexivity.
+    - apply IH.
+  Qed.
+  Lemma assoc_last_lt_all : forall k m d, lt_all k m -> assoc_last k m d = d.
+  Proof.
+    intros k m d L. revert d. induction L as [|[k' v'] r H _ IH]; intro d; [reflexivity|].
+    cbn [assoc_last]. cbn in H. rewrite (keqb_lt _ _ H). apply IH.
+  Qed.
+  Lemma assoc_last_sorted : forall k m, sorted m -> assoc_last k m None = lookup k m.
+  Proof.
+    intros k m. induction m as [|[k' v] r IH]; intro S; [reflexivity|]. destruct S as [L S].
+    cbn [assoc_last SortedMap.lookup]. destruct (keqb k k') eqn:E.
+    - apply keqb_eq in E. subst k'. apply assoc_last_lt_all. exact L.
+    - apply IH. exact S.
+  Qed.
+  Lemma lookup_of_list : forall l k, lookup k (of_list ltb l) = assoc_last k l None.
+  Proof. intros l k. unfold of_list. rewrite lookup_extend by exact I. reflexivity. Qed.
+  Lemma of_list_sorted_id : forall m, sorted m -> of_list ltb m = m.
+  Proof.
+    intros m S. apply sorted_ext; [apply of_list_sorted|exact S|]. intro k.
+    rewrite lookup_of_list. apply assoc_last_sorted. exact S.
+  Qed.
+  (* folding "apply f to the entry with key k" over a sorted map touches at most one entry *)
+  Lemma fold_select_sorted : forall (A : Type) (t : K -> bool) (f : V -> A -> A) k m a,
+    (forall k', t k' = true <-> k' = k) -> sorted m ->
+    fold_left (fun a e => if t (fst e) then f (snd e) a else a) m a
+    = match lookup k m with Some x => f x a | None => a end.
+  Proof.
+    intros A t f k m a T. revert a. induction m as [|[k' v] r IH]; intros a S; [reflexivity|].
+    destruct S as [L S]. cbn [fold_left fst snd SortedMap.lookup]. destruct (t k') eqn:E.
+    - apply T in E. subst k'. rewrite keqb_refl. rewrite (IH _ S). rewrite lookup_lt_all by exact L. reflexivity.
+    - assert (keqb k k' = false) as ->.
+      { apply keqb_neq. intro C. subst k'. assert (t k = true) by (apply T; reflexivity). congruence. }
+      apply IH. exact S.
+  Qed.
+
+  (* ---- predicates on all entries ---- *)
+  Lemma Forall_insert : forall (P : K * V -> Prop) k v m, P (k, v) -> Forall P m -> Forall P (insert k v m).
+  Proof.
+    intros P k v m Pk F. induction F as [|[k' v'] r H F IH]; cbn [SortedMap.insert]; [constructor; [exact Pk|constructor]|].
+    destruct (ltb k k'); [|destruct (ltb k' k)].
+    - constructor; [exact Pk|]. constructor; assumption.
+    - constructor; assumption.
+    - constructor; assumption.
+  Qed.
+  Lemma Forall_remove : forall (P : K * V -> Prop) k m, Forall P m -> Forall P (remove k m).
+  Proof.
+    intros P k m F. induction F as [|[k' v'] r H F IH]; cbn [SortedMap.remove]; [constructor|].
+    destruct (ltb k k'); [|destruct (ltb k' k)].
+    - constructor; assumption.
+    - constructor; assumption.
+    - exact F.
+  Qed.
+  Lemma Forall_extend : forall (P : K * V -> Prop) l m, Forall P m -> Forall P l -> Forall P (extend ltb m l).
+  Proof.
+    intros P l. induction l as [|[k v] l IH]; intros m Fm Fl; [exact Fm|]. cbn [extend fold_left].
+    inversion Fl; subst. apply IH; [|assumption]. apply Forall_insert; assumption.
+  Qed.
+  Lemma Forall_of_list : forall (P : K * V -> Prop) l, Forall P l -> Forall P (of_list ltb l).
+  Proof. intros. apply Forall_extend; [constructor|assumption]. Qed.
+  Lemma Forall_lookup : forall (P : K * V -> Prop) k v m, Forall P m -> lookup k m = Some v -> P (k, v).
+  Proof. intros P k v m F L. apply lookup_Some_In in L. rewrite Forall_forall in F. exact (F _ L). Qed.
+
   (* ---- filter on keys, map on values ---- *)
   Lemma lt_all_filter : forall a f (m : list (K * V)), lt_all a m -> lt_all a (filter f m).
   Proof.
@@ -418,3 +488,12 @@ Section MapKeys.
 End MapKeys.
 
 Arguments assoc_last {K V} ltb k l d.
+
+From Coq Require Import NArith.
+Lemma Nltb_strict_total : StrictTotal N.ltb.
+Proof.
+  split.
+  - intro a. apply N.ltb_irrefl.
+  - intros a b c H1 H2. apply N.ltb_lt in H1, H2. apply N.ltb_lt. eapply N.lt_trans; eassumption.
+  - intros a b H1 H2. apply N.ltb_ge in H1, H2. apply N.le_antisymm; assumption.
+Qed.
